@@ -27,7 +27,7 @@ def _fmt_seconds_only(fmt):
     return True
 
 
-def value_type(e, g, node, params, fold_const, depth=0):
+def value_type(e, g, node, params, fold_const, depth=0, inline_call=None):
     """abstract type of expression e evaluated at CFG node `node`:
     'int' 'float' 'str' 'bool' 'None' 'datetime' (second resolution) 'date' 'time' 'strlist' (list of stripped strings)
     'default:<key>' (default_values(<literal>)) 'param:<name>' (argument passed through) or '?:<text>'."""
@@ -38,9 +38,12 @@ def value_type(e, g, node, params, fold_const, depth=0):
             return set(["None"])
         return set([type(e.value).__name__])
     if isinstance(e, ast.IfExp):
-        return value_type(e.body, g, node, params, fold_const, depth + 1) | value_type(e.orelse, g, node, params, fold_const, depth + 1)
+        return value_type(e.body, g, node, params, fold_const, depth + 1, inline_call) | value_type(e.orelse, g, node, params, fold_const, depth + 1, inline_call)
     if isinstance(e, ast.Name):
         out = set()
+        built = _built_by_append(g, e.id)
+        if built is not None:
+            return built
         defs = reaching_defs(g, node, e.id)
         if not defs:
             return set(["?:%s" % e.id])
@@ -52,7 +55,7 @@ def value_type(e, g, node, params, fold_const, depth=0):
             if v is None:
                 out.add("?:%s" % e.id)
             else:
-                out |= value_type(v, g, d, params, fold_const, depth + 1)
+                out |= value_type(v, g, d, params, fold_const, depth + 1, inline_call)
         return out
     if isinstance(e, ast.ListComp):
         elt = e.elt
@@ -60,6 +63,10 @@ def value_type(e, g, node, params, fold_const, depth=0):
             return set(["strlist"])
         return set(["?:%s" % unparse(e)[:30]])
     if isinstance(e, ast.Call):
+        if inline_call is not None:
+            r = inline_call(e)
+            if r is not None:
+                return value_type(r, g, node, params, fold_const, depth + 1, inline_call)
         fn = call_name(e)
         last = fn.split(".")[-1]
         if fn in ("int", "float", "str", "bool") and len(e.args) == 1:
@@ -71,16 +78,46 @@ def value_type(e, g, node, params, fold_const, depth=0):
             if _fmt_seconds_only(fmt):
                 return set(["datetime"])
             return set(["?:strptime with format %r" % (fmt,)])
+        if last == "now" and "datetime" in fn and not e.args:
+            return set(["datetime-now"])          # the current time, with microseconds
         if isinstance(e.func, ast.Attribute):
-            base = value_type(e.func.value, g, node, params, fold_const, depth + 1)
-            if last == "date" and not e.args and base == set(["datetime"]):
+            base = value_type(e.func.value, g, node, params, fold_const, depth + 1, inline_call)
+            if last == "date" and not e.args and base <= set(["datetime", "datetime-now"]) and base:
                 return set(["date"])
             if last == "time" and not e.args and base == set(["datetime"]):
                 return set(["time"])
+            if last == "time" and not e.args and base == set(["datetime-now"]):
+                return set(["time-with-microseconds"])
             if last == "replace" and any(k.arg == "microsecond" and isinstance(k.value, ast.Constant) and k.value.value == 0 for k in e.keywords):
-                return set(["datetime"])
+                # truncating the *current time* gives a second resolution datetime; truncating an argument keeps whatever else it
+                # carries (tzinfo), so that is the argument passed through
+                if base == set(["datetime-now"]) or base == set(["datetime"]):
+                    return set(["datetime"])
+                return set(["param-modified:%s" % unparse(e.func.value)[:30]])
         return set(["?:%s" % unparse(e)[:40]])
     return set(["?:%s" % unparse(e)[:40]])
+
+
+def _built_by_append(g, name):
+    """{'strlist'} when `name` is initialised with [] once and only ever grows by .append(<x>.strip()); None otherwise"""
+    inits = [n for n in g.nodes if n.kind == "stmt" and isinstance(n.ast, ast.Assign) and any(isinstance(t, ast.Name) and t.id == name for t in n.ast.targets)]
+    if len(inits) != 1 or not (isinstance(inits[0].ast.value, ast.List) and not inits[0].ast.value.elts):
+        return None
+    muts = []
+    for n in g.nodes:
+        for r in n.expr_roots():
+            for c in ast.walk(r):
+                if isinstance(c, ast.Call) and isinstance(c.func, ast.Attribute) and isinstance(c.func.value, ast.Name) and c.func.value.id == name:
+                    muts.append(c)
+    if not muts:
+        return None
+    for c in muts:
+        if c.func.attr != "append" or len(c.args) != 1:
+            return None
+        a = c.args[0]
+        if not (isinstance(a, ast.Call) and isinstance(a.func, ast.Attribute) and a.func.attr == "strip" and not a.args):
+            return None
+    return set(["strlist"])
 
 
 def validated_before(g, node, var, check_leaf, start_defs_ok=None):
